@@ -414,10 +414,24 @@ func TestCheck(t *testing.T) {
 				return
 			}
 			want := spec
-			want.MaximumNameLength = uint8(min(len(spec.PublicName)+16, 255))
+			// maximum_name_length is not among the fields the statement lists for the round trip (id, KEM, public key,
+			// cipher suites, public name), and any octet is legal there: how the producer chooses it is left open
+			want.MaximumNameLength = rc.MaxNameLen
 			if d := sameSpec(want, rc); d != "" {
 				r.Violate("codec", i, "codec:encode-mismatch", "independent parse of Bytes() differs from the spec: "+d, c)
 				return
+			}
+			// "derived from the name": the same name gives the same octet, whatever else the spec holds (its own
+			// MaximumNameLength field, the id)
+			other := spec
+			other.ID ^= 0x5a
+			other.MaximumNameLength = ^spec.MaximumNameLength
+			if enc2, err2 := other.Bytes(); err2 == nil {
+				if rc2, err3 := refParseConfig(&rd{enc2}, false); err3 == nil && rc2.MaxNameLen != rc.MaxNameLen {
+					r.Violate("codec", i, "codec:maximum-name-length-not-derived-from-the-name", fmt.Sprintf("two specs with the same %d-byte public name were encoded with maximum_name_length %d and %d", len(spec.PublicName), rc.MaxNameLen, rc2.MaxNameLen), c)
+					return
+				}
+				r.Count("codec_maximum_name_length_compared_across_specs", 1)
 			}
 			if strictOK && (!rc.HasExt || len(rc.ExtBytes) != 0) {
 				r.Violate("codec", i, "codec:extensions", "encoding lacks an empty extensions vector", c)
@@ -514,7 +528,9 @@ func TestCheck(t *testing.T) {
 				if d := sameSpec(got[j], rl[j]); d != "" {
 					r.Violate("list", i, "list:roundtrip", fmt.Sprintf("config %d: %s", j, d), c)
 				}
-				if d := sameSpec(specs[j], rl[j]); d != "" {
+				sj := specs[j]
+				sj.MaximumNameLength = rl[j].MaxNameLen // not a field of the round trip, see above
+				if d := sameSpec(sj, rl[j]); d != "" {
 					r.Violate("list", i, "list:encode-mismatch", fmt.Sprintf("config %d: %s", j, d), c)
 				}
 			}
@@ -724,6 +740,7 @@ func TestCheck(t *testing.T) {
 			for _, s := range rc.Suites {
 				want.CipherSuites = append(want.CipherSuites, ech.CipherSuite{KDF: s[0], AEAD: s[1]})
 			}
+			want.MaximumNameLength = rc.MaxNameLen // not a field of the round trip, see above
 			if d := sameSpec(want, rc); d != "" {
 				r.Violate("newconfig", i, "newconfig:fields", d, c)
 			}
